@@ -537,4 +537,11 @@ def reportByte (code : Nat) : Byte :=
   | some c => c.2.1
   | none => reportDefault
 
+/-- the whole report: a fixed text for the codes that have one; otherwise the class byte followed by what the
+    child wrote, up to its first NUL (`for (i = 0;i < len;++i) if (!s[i]) break; substdio_put(ss,s,i)`) -/
+def reportFull (code : Nat) (s : Bytes) : Bytes :=
+  match reportTexts.find? (fun c => c.1 == code) with
+  | some c => c.2
+  | none => reportByte code :: s.takeWhile (· != NUL)
+
 end Nq.Users
